@@ -104,6 +104,18 @@ def check(rep, tier, seed, replay):
                     rep.violation("oracle", {"case": line, "impl": out, "l0": o})
                 else:
                     distinct.add(line.split(" | ", 1)[1])
+    if mism and not any(v.get("found_input") for v in rep.violations):
+        from .deciders import escalate
+
+        def refuted_by(line, out, f):
+            if out == "recur":
+                return f["halt"] != "none" or f["spin"] != "none"
+            if out == "spinout":
+                return f["spin"] == "none" and f["halt"] != "none"
+            q, s = out[len("undefined("):-1].split(",")
+            return (f["halt"] != "none" and not f["halt"].endswith(f":{q},{s}")) or (f["halt"] == "none" and f["spin"] != "none")
+        escalate(rep, [m for m in mism if m["case"].split(" | ", 1)[1].startswith("1RB")],
+                 lambda o: o == "recur" or o == "spinout" or o.startswith("undefined"), refuted_by, seed, budget=300000, keep_first=True)
     for m in mism[:100]:
         rep.violation("correspondence", m, found_input=False)
     rep.add_counts(len(lines), len(distinct))
